@@ -20,7 +20,7 @@ ASSUMPTIONS = ["the channel's range is taken from sample.range() before the call
                'bin-centre identities compared at rel. 1e-9']
 BUDGET = {
     'quick': dict(examples=3000, time_s=240),
-    'thorough': dict(examples=120000, time_s=1500),
+    'thorough': dict(examples=120000, time_s=1500, fuzz=dict(workers=8, runs=6000, max_s=300)),
 }
 
 SCALES = ['linear', 'log', 'logicle']
@@ -84,7 +84,7 @@ def _case(draw):
         spec['png'] = [None] * D
         convert = None
         form = draw(st.sampled_from(['all', 'list']))
-        sel = list(range(D)) if form == 'all' else draw(st.permutations(list(range(D))))
+        sel = list(range(D)) if form == 'all' else draw(st.lists(st.integers(0, D - 1), min_size=D, max_size=D, unique=True))
         spell = [draw(st.booleans()) for _ in sel]
         k = len(sel)
         nbins = draw(nb)
